@@ -98,6 +98,13 @@ func c20Ranges(name string, lvl int, strs []string) []string {
 		}
 	}
 	sel := stride(bounds, 25)
+	nplus := 0
+	for _, i := range bounds {
+		if strings.Contains(strs[i], "+") && nplus < 3 {
+			sel = append(sel, i)
+			nplus++
+		}
+	}
 	seenPrefix := map[string]bool{}
 	for _, i := range bounds {
 		// one bound per distinct spelled prefix (v, =, release-, rel-, epochs ...)
